@@ -24,8 +24,15 @@
 //!                    kinds, `//` and `/* */` comments), in strata: clean / two comments in a
 //!                    row / comment right after a keyword / literal glued to `(` / comment between
 //!                    the variable of for|some|every and `in` (F32) / comment between `function`
-//!                    and `(` (F33)
+//!                    and `(` (F33); since the repair of F32 / F33 these two gaps are laid out
+//!                    like every other gap in all strata as well
 //!   gap              white space and 0-3 comments before a token: lexer vs `skipGap`
+//!   keyword-gap      `function` / `list` / `range` / `context` ++ white space and 0-3 comments ++
+//!                    a follower: `is_next_character` vs `GapLayout.nextIs`, and (closed comments)
+//!                    the keyword is recognised exactly when the follower is the bracket
+//!   flags            lexer flags that must not outlive their token: a conjunct with `date(`,
+//!                    `time(`, `string(`, `number(` … after `(x instance of <named type>)` (L3);
+//!                    `item` as the variable of for/some/every (L4)
 //!   escape           every escape form (both digit cases) over boundary code points and a
 //!                    stratified sample; simple escapes; malformed escapes
 //!   extended         what is still outside `Dmn.Ref.Tree` (typed parameters, external bodies,
@@ -49,6 +56,7 @@ use crate::util::guarded;
 use crate::Cfg;
 use dmntk_feel::values::Value;
 use dmntk_feel::{AstNode, FeelType, Name, Scope};
+use dmntk_feel_parser::VerifTokenType as TT;
 use serde_json::json;
 
 // ------------------------------------------------------------------------------------------
@@ -66,6 +74,9 @@ const SIG_KEYWORD_COMMENT: &str = "layout changes the tree: comment directly aft
 const SIG_LITERAL_PAREN: &str = "layout changes the tree: true/false/null directly followed by (";
 const SIG_VAR_COMMENT: &str = "layout changes the tree: comment between the variable of for/some/every and `in`";
 const SIG_FUNCTION_COMMENT: &str = "layout changes the tree: comment between `function` and (";
+const SIG_TYPE_KEYWORD_COMMENT: &str = "layout changes the tree: comment between list/range/context/function and <";
+const SIG_STALE_TYPE_NAME: &str = "parser rejects a type or conversion function name (date, time, string, number) after instance of a named type";
+const SIG_ITEM_VARIABLE: &str = "parser rejects `item` as the variable of for/some/every";
 
 // ------------------------------------------------------------------------------------------
 // alphabet
@@ -828,6 +839,14 @@ fn pick_str(rng: &mut Rng, xs: &[&'static str]) -> &'static str {
 }
 
 fn render_layout(ts: &[Tk], rng: &mut Rng, class: LayoutClass) -> String {
+  render_layout_flags(ts, rng, class).0
+}
+
+/// The layout, whether a comment stands between a variable and its `in`, and whether one stands
+/// between `function` and `(` (the former findings F32 / F33: since their repair these two gaps
+/// are laid out like every other gap).
+fn render_layout_flags(ts: &[Tk], rng: &mut Rng, class: LayoutClass) -> (String, bool, bool) {
+  let (mut var_comment, mut fn_comment) = (false, false);
   const WS: [&str; 12] = [" ", "  ", "\n", "\t", "\r\n", " \n ", "\u{00A0}", "\u{2003}", "\u{200B}", "\u{3000}", "\u{2028}", "\u{205F}"];
   const COMMENTS: [&str; 5] = ["/* c */", "/**/", "/* a + b and ( */", "// x\n", "// 1 + (\n"];
   let mut out = String::new();
@@ -851,13 +870,11 @@ fn render_layout(ts: &[Tk], rng: &mut Rng, class: LayoutClass) -> String {
     }
     let next = &ts[i + 1];
     let mut gap = String::new();
-    if binder_gap(ts, i) || function_gap(ts, i) {
-      // white space only — except in the two classes that witness F32 / F33
+    if (class == LayoutClass::VarComment && var_special == Some(i)) || (class == LayoutClass::FunctionComment && function_gap(ts, i)) {
+      // the two classes that witness F32 / F33: a comment for certain
       gap.push_str(pick_str(rng, &WS));
-      if (class == LayoutClass::VarComment && var_special == Some(i)) || (class == LayoutClass::FunctionComment && function_gap(ts, i)) {
-        gap.push_str(pick_str(rng, &COMMENTS));
-        gap.push_str(pick_str(rng, &WS));
-      }
+      gap.push_str(pick_str(rng, &COMMENTS));
+      gap.push_str(pick_str(rng, &WS));
     } else if class == LayoutClass::KeywordComment && kw_special == Some(i) {
       gap.push_str(pick_str(rng, &COMMENTS[..3]));
       gap.push_str(pick_str(rng, &WS));
@@ -873,14 +890,15 @@ fn render_layout(ts: &[Tk], rng: &mut Rng, class: LayoutClass) -> String {
         out.push_str(&gap);
         continue;
       }
-      let must = t.keyword || (t.wordy && next.wordy) || (t.text == "/" && (next.text == "/" || next.text == "*")) || (word_literal && next.text == "(");
+      // `function` is a keyword through what follows it (`(`), not through white space
+      let must = (t.keyword && !function_gap(ts, i)) || (t.wordy && next.wordy) || (t.text == "/" && (next.text == "/" || next.text == "*")) || (word_literal && next.text == "(");
       // `- >` would be read as the arrow `->`
       let must = must || (t.text == "-" && next.text.starts_with('>'));
       // `1 .` + name: keep numbers and dots apart
       let must = must || (t.text == "." || next.text == "." || t.text == ".." || next.text == "..") && (t.wordy || next.wordy || t.text == "." || next.text == ".");
       let k = rng.below(6);
       // a comment ends a keyword as well as white space does
-      let comment_first = t.keyword && k >= 4 && rng.chance(1, 2);
+      let comment_first = t.keyword && !function_gap(ts, i) && k >= 4 && rng.chance(1, 2);
       if !comment_first && (must || k > 0) {
         gap.push_str(pick_str(rng, &WS));
       }
@@ -897,6 +915,10 @@ fn render_layout(ts: &[Tk], rng: &mut Rng, class: LayoutClass) -> String {
         }
       }
     }
+    if gap.contains("/*") || gap.contains("//") {
+      var_comment |= binder_gap(ts, i);
+      fn_comment |= function_gap(ts, i);
+    }
     out.push_str(&gap);
   }
   if rng.chance(1, 3) {
@@ -905,7 +927,7 @@ fn render_layout(ts: &[Tk], rng: &mut Rng, class: LayoutClass) -> String {
       out.push_str(pick_str(rng, &COMMENTS));
     }
   }
-  out
+  (out, var_comment, fn_comment)
 }
 
 // ------------------------------------------------------------------------------------------
@@ -2106,6 +2128,14 @@ pub fn run(cfg: &Cfg) -> Report {
     ("for k /* c */ in b return k", "for k in b return k", SIG_VAR_COMMENT),
     ("some k // c\n in b satisfies k", "some k in b satisfies k", SIG_VAR_COMMENT),
     ("function /* c */ ( a ) a", "function ( a ) a", SIG_FUNCTION_COMMENT),
+    ("function // c\n ( a ) a", "function ( a ) a", SIG_FUNCTION_COMMENT),
+    ("function/**/( a , b ) a", "function ( a , b ) a", SIG_FUNCTION_COMMENT),
+    ("a instance of list /* c */ < b >", "a instance of list < b >", SIG_TYPE_KEYWORD_COMMENT),
+    ("a instance of range // c\n < b >", "a instance of range < b >", SIG_TYPE_KEYWORD_COMMENT),
+    ("a instance of context /**/ < k : b >", "a instance of context < k : b >", SIG_TYPE_KEYWORD_COMMENT),
+    ("a instance of function /* c */ < b > -> c", "a instance of function < b > -> c", SIG_TYPE_KEYWORD_COMMENT),
+    ("for k /* c */ in b return k + a in c", "for k in b return k + a in c", SIG_VAR_COMMENT),
+    ("every k // c\n in b satisfies k", "every k in b satisfies k", SIG_VAR_COMMENT),
     ("for /* c */ k in /* c */ b return /* c */ k", "for k in b return k", "layout changes the tree"),
     ("if/**/a then/**/b else/**/c", "if a then b else c", "layout changes the tree"),
     ("{/**/a/**/:/**/1/**/}", "{ a : 1 }", "layout changes the tree"),
@@ -2142,7 +2172,13 @@ pub fn run(cfg: &Cfg) -> Report {
     if class == LayoutClass::DoubleComment && toks.len() < 2 {
       continue;
     }
-    let text = render_layout(toks, &mut layout_rng, class);
+    let (text, var_comment, fn_comment) = render_layout_flags(toks, &mut layout_rng, class);
+    if var_comment {
+      rep.hit("layout:comment-before-in");
+    }
+    if fn_comment {
+      rep.hit("layout:comment-after-function");
+    }
     rep.case(&text, c.tree.depth() >= 2);
     rep.hit(&format!("layout:{:?}", class));
     let im = run_impl(&text);
@@ -2153,6 +2189,8 @@ pub fn run(cfg: &Cfg) -> Report {
     };
     if !equal {
       let sig = match class {
+        LayoutClass::Clean | LayoutClass::DoubleComment | LayoutClass::KeywordComment if var_comment => SIG_VAR_COMMENT,
+        LayoutClass::Clean | LayoutClass::DoubleComment | LayoutClass::KeywordComment if fn_comment => SIG_FUNCTION_COMMENT,
         LayoutClass::Clean => "layout changes the tree",
         LayoutClass::DoubleComment => SIG_TWO_COMMENTS,
         LayoutClass::KeywordComment => SIG_KEYWORD_COMMENT,
@@ -2161,6 +2199,124 @@ pub fn run(cfg: &Cfg) -> Report {
         LayoutClass::FunctionComment => SIG_FUNCTION_COMMENT,
       };
       rep.disagree(Kind::ImplVsSpec, "layout", sig, &text, &show(&im), &show(base));
+    }
+  }
+
+  // ---------------------------------------------------------------- lexer flags that outlive their token
+  // (a) `type_name` (set at `instance of`): the conjunct after `(x instance of <named type>)` is what it is alone;
+  // (b) `till_in` with the variable `item`: the tree is the one of any other variable name.
+  {
+    let heads = ["( a instance of b )", "( a instance of b . c )", "( a instance of list < b > )", "[ a instance of tA ] = [ true ]"];
+    let tails = ["date ( \"2012-12-25\" ) = c", "c = time ( \"10:00:00\" )", "string ( c ) = \"1\"", "number ( c ) > 1", "c = date and time ( \"2012-12-25T10:00:00\" )", "duration ( c ) = a"];
+    for head in heads {
+      for tail in tails {
+        let text = format!("{} and {}", head, tail);
+        rep.case(&text, true);
+        rep.hit("flags:type-name");
+        let im = run_impl(&text);
+        let expected = match (run_impl(head), run_impl(tail)) {
+          (Ok(l), Ok(r)) => Ok(AstNode::And(Box::new(l), Box::new(r))),
+          (l, r) => Err(format!("parts do not parse: {} / {}", show(&l), show(&r))),
+        };
+        if im != expected {
+          rep.disagree(Kind::ImplVsSpec, "flags", SIG_STALE_TYPE_NAME, &text, &show(&im), &show(&expected));
+        }
+      }
+    }
+    for (text, plain) in [
+      ("some item in b satisfies item in c", "some k in b satisfies k in c"),
+      ("every item in b satisfies item in c", "every k in b satisfies k in c"),
+      ("for item in b return item in c", "for k in b return k in c"),
+      ("for item in b , j in c return item + j in a", "for k in b , j in c return k + j in a"),
+      ("some item in b satisfies item > a", "some k in b satisfies k > a"),
+    ] {
+      rep.case(text, true);
+      rep.hit("flags:till-in-item");
+      let im = run_impl(text).map(|n| format!("{:?}", n));
+      let expected = run_impl(plain).map(|n| format!("{:?}", n).replace("Name(\"k\")", "Name(\"item\")"));
+      if im != expected || expected.is_err() {
+        rep.disagree(Kind::ImplVsSpec, "flags", SIG_ITEM_VARIABLE, text, &format!("{:?}", im), &format!("{:?}", expected));
+      }
+    }
+  }
+
+  // ---------------------------------------------------------------- the gap after function / list / range / context
+  // `is_next_character` against `GapLayout.nextIs`: keyword ++ gap ++ follower; the keyword token is produced
+  // exactly when the model finds the bracket beyond white space and comments; the property: a gap of white space
+  // and closed comments in front of the bracket never changes the answer.
+  {
+    let mut kg_rng = rng.fork();
+    let ws: [&str; 8] = [" ", "\n", "\t", "\r\n", "\u{00A0}", "\u{2003}", "  ", "\u{3000}"];
+    let body_chars: [&str; 9] = ["x", " ", "*", "/", "(", "<", "1", "**", "/ *"];
+    let kws: [(&str, &[char], TT); 4] = [("function", &['(', '<'], TT::Function), ("list", &['<'], TT::List), ("range", &['<'], TT::Range), ("context", &['<'], TT::Context)];
+    let followers = ["(", "<", "a", ":", "", "/", "/ 2", "*"];
+    let n = if thorough { 20_000 } else { 1_600 };
+    let mut reqs = vec![];
+    let mut cases: Vec<(String, usize, bool, TT, bool)> = vec![];
+    for i in 0..n {
+      let (kw, chars, tt) = kws[i % 4].clone();
+      let n_comments = [0, 1, 1, 2, 3][(i / 4) % 5];
+      let mut gap = String::new();
+      for _ in 0..kg_rng.below(3) {
+        gap.push_str(pick_str(&mut kg_rng, &ws));
+      }
+      let mut closed = true;
+      for ci in 0..n_comments {
+        let mut body = String::new();
+        for _ in 0..kg_rng.below(4) {
+          body.push_str(pick_str(&mut kg_rng, &body_chars));
+        }
+        if kg_rng.chance(1, 2) {
+          gap.push_str("//");
+          gap.push_str(&body);
+          gap.push('\n');
+        } else {
+          gap.push_str("/*");
+          gap.push_str(&body.replace("*/", "* /"));
+          // now and then the last comment is left open
+          if ci + 1 == n_comments && kg_rng.chance(1, 12) {
+            closed = false;
+          } else {
+            gap.push_str("*/");
+          }
+        }
+        for _ in 0..kg_rng.below(3) {
+          gap.push_str(pick_str(&mut kg_rng, &ws));
+        }
+      }
+      let follower = *kg_rng.pick(&followers);
+      let tail = format!("{}{}", gap, follower);
+      let text = format!("{}{}", kw, tail);
+      reqs.push(format!("(c06 nextis {} {})", Sexp::str(&chars.iter().collect::<String>()), Sexp::str(&tail)));
+      let wanted = closed && follower.chars().next().map(|c| chars.contains(&c)).unwrap_or(false);
+      cases.push((text, n_comments, wanted, tt, closed));
+    }
+    let answers = model.ask_batch(&reqs);
+    let s0 = scope();
+    for (((text, n_comments, wanted, tt, closed), req), ans) in cases.iter().zip(reqs.iter()).zip(answers.iter()) {
+      let m: Option<bool> = Sexp::parse(ans).and_then(|s| s.as_list().and_then(|l| l.get(1).and_then(|x| x.as_atom().map(|a| a == "true"))));
+      let m = match m {
+        Some(b) => b,
+        None => {
+          rep.disagree(Kind::ImplVsModel, "keyword-gap", "driver-error", req, "", ans);
+          continue;
+        }
+      };
+      rep.case(text, *n_comments > 0);
+      rep.hit(&format!("keyword-gap:{}-comments", n_comments));
+      crate::util::note_case(text);
+      let toks = guarded(|| dmntk_feel_parser::verif::tokenize(&s0, TT::StartExpression, text, (false, false, false, false), 2));
+      let is_kw = match &toks {
+        Ok(ts) if ts.len() == 2 => ts[1].0 == tt.clone() as i32,
+        _ => false,
+      };
+      if is_kw != m {
+        rep.disagree(Kind::ImplVsModel, "keyword-gap", "is_next_character differs from GapLayout.nextIs", &format!("{:?}", text), &format!("keyword: {}", is_kw), &format!("keyword: {}", m));
+      }
+      if *closed && is_kw != *wanted {
+        let sig = if text.starts_with("function") { SIG_FUNCTION_COMMENT } else { SIG_TYPE_KEYWORD_COMMENT };
+        rep.disagree(Kind::ImplVsSpec, "keyword-gap", sig, &format!("{:?}", text), &format!("keyword: {}", is_kw), &format!("keyword: {}", wanted));
+      }
     }
   }
 
